@@ -2,6 +2,7 @@ import re
 
 from pydbml.classes import Note, Table, Column
 from pydbml.renderer.sql.default.renderer import DefaultSQLRenderer
+from pydbml.renderer.sql.default.utils import get_full_name_for_sql
 
 
 def prepare_text_for_sql(model: Note) -> str:
@@ -20,8 +21,12 @@ def prepare_text_for_sql(model: Note) -> str:
 
 def generate_comment_on(model: Note, entity: str, name: str) -> str:
     """Generate a COMMENT ON clause out from this note."""
+    return _comment_on(model, entity, f'"{name}"')
+
+
+def _comment_on(model: Note, entity: str, quoted_name: str) -> str:
     quoted_text = f"'{prepare_text_for_sql(model)}'"
-    note_sql = f'COMMENT ON {entity.upper()} "{name}" IS {quoted_text};'
+    note_sql = f'COMMENT ON {entity.upper()} {quoted_name} IS {quoted_text};'
     return note_sql
 
 
@@ -34,7 +39,10 @@ def render_note(model: Note) -> str:
     """
 
     if model.text:
-        if isinstance(model.parent, (Table, Column)):
+        if isinstance(model.parent, Table):
+            # same qualification as in CREATE TABLE
+            return _comment_on(model, 'Table', get_full_name_for_sql(model.parent))
+        elif isinstance(model.parent, Column):
             return generate_comment_on(model, model.parent.__class__.__name__, model.parent.name)
         else:
             text = prepare_text_for_sql(model)
